@@ -137,7 +137,7 @@ def neutralise(argv):
 class C11(Check):
     prop_id = "C11"
     rule = ("argv = interleavings of recognised options (-D/-I/-isystem/-include, attached and separate spelling, values with "
-            "'=', quotes, blanks, leading dashes, shell metacharacters) with entries of a catalogue of ~230 real gcc/clang/icx/"
+            "'=', quotes, blanks, leading dashes, shell metacharacters) with entries of a catalogue of 172 real gcc/clang/icx/"
             "nvcc/gfortran options CBI does not model; all vectors of <= 3 (quick) / 4 (thorough) items over a 16-item pool "
             "exhaustively, plus known-finding spellings at every position of short vectors, random vectors of 4-30 items, a "
             "malformed stream (abbreviations, '--', missing values, clusters, random punctuation) that is compared with M only, "
@@ -153,7 +153,8 @@ class C11(Check):
     def __init__(self, tier, seed):
         super().__init__(tier, seed)
         self._root = None
-        self._hist = {"kind": {}, "argv_len": {}, "outcome": {}, "classes": {}, "split_outcome": {}}
+        self._hist = {"kind": {}, "argv_len": {}, "outcome": {}, "outcome_malformed": {}, "classes": {}, "split_outcome": {}}
+        self._seen = set()
         self._py_coq_spec_mismatch = []
 
     # ------------------------------------------------------------ generation
@@ -203,8 +204,11 @@ class C11(Check):
         quick = self.tier == "quick"
         out = []
 
-        def argv_case(items, dom):
-            return {"kind": "argv", "items": items, "dom": dom}
+        def argv_case(items, dom, db=None):
+            # the load_database route costs ~7 ms (schema validation): every case of block 3, one in eight elsewhere
+            if db is None:
+                db = self.rng.random() < 0.125
+            return {"kind": "argv", "items": items, "dom": dom, "db": db}
 
         # 1. exhaustive block over the reduced pool
         lim = 3 if quick else 4
@@ -221,11 +225,11 @@ class C11(Check):
                         out.append(argv_case(base[:pos] + [list(f)] + base[pos:], f != ["-i"]))
         # 3. every catalogue entry between two recognised options, and every value of every pool in both spellings
         for e in CATALOGUE:
-            out.append(argv_case([["-DA"], list(e), ["-I", "inc"], list(e), ["-include", "f.h"]], True))
+            out.append(argv_case([["-DA"], list(e), ["-I", "inc"], list(e), ["-include", "f.h"]], True, True))
         for k, vals in VALUES.items():
             for v in vals:
-                out.append(argv_case([["-Wall"], [FLAGS[k], v], ["-DLAST"]], True))
-                out.append(argv_case([["-Wall"], [FLAGS[k] + v], ["-DLAST"]], True))
+                out.append(argv_case([["-Wall"], [FLAGS[k], v], ["-DLAST"]], True, True))
+                out.append(argv_case([["-Wall"], [FLAGS[k] + v], ["-DLAST"]], True, True))
         # 4. random vectors: mostly-valid (safe values only), general (all values), long
         n_rand = 1500 if quick else 60000
         for i in range(n_rand):
@@ -360,12 +364,39 @@ class C11(Check):
                     return ["differs", k, e[k], v]
         return "same"
 
+    def _count(self, case, ia):
+        """input distribution, recorded once per distinct case"""
+        k = self.key(case)
+        if k in self._seen:
+            return
+        self._seen.add(k)
+        h = self._hist
+
+        def inc(d, key):
+            h[d][key] = h[d].get(key, 0) + 1
+        if case["kind"] == "split":
+            inc("kind", "split")
+            inc("split_outcome", ia[0] if ia[0] == "Ok" else ia[1])
+            return
+        inc("kind", "argv-in-domain" if case.get("dom") else "argv-malformed")
+        if case.get("db"):
+            inc("kind", "argv-through-load_database")
+        argv = self.argv(case)
+        inc("argv_len", "%02d+" % min(len(argv) // 5 * 5, 40))
+        inc("outcome" if case.get("dom") else "outcome_malformed", ia[0])
+        for cls in {c for c, _ in class_instances(argv)}:
+            inc("classes", cls)
+
     def impl(self, case):
         if case["kind"] == "split":
-            return self._split(case["s"])
+            r = self._split(case["s"])
+            self._count(case, r)
+            return r
         argv = self.argv(case)
         direct = self._parse(argv)
-        return [direct, shlex.join(argv), self._split(shlex.join(argv)), self._database(argv, direct)]
+        self._count(case, direct)
+        db = self._database(argv, direct) if case.get("db") else "n/a"
+        return [direct, shlex.join(argv), self._split(shlex.join(argv)), db]
 
     # ------------------------------------------------------------ views
     def model_view(self, case, ans):
@@ -375,8 +406,8 @@ class C11(Check):
         res = list(res)
         if res[0] == "Ok":
             res[4] = " ".join(res[4])
-        db = "same"
-        if res[0] in ("Ok", "ArgErr") and any(not isinstance(x, str) for x in res[2]):
+        db = "same" if case.get("db") else "n/a"
+        if case.get("db") and res[0] in ("Ok", "ArgErr") and any(not isinstance(x, str) for x in res[2]):
             db = ["Err", "TypeError"]
         return [res, cmd, sp, db]
 
@@ -392,7 +423,7 @@ class C11(Check):
             lists = coq
         else:
             lists = py
-        return [["Ok"] + lists, ["Ok", argv], "same"]
+        return [["Ok"] + lists, ["Ok", argv], "same" if case.get("db") else "n/a"]
 
     def impl_view_for_spec(self, case, ia):
         if case["kind"] == "split":
@@ -403,18 +434,9 @@ class C11(Check):
         return case["kind"] == "argv" and bool(case.get("dom"))
 
     def nontrivial(self, case, ia):
-        k = case["kind"]
-        self._hist["kind"][k] = self._hist["kind"].get(k, 0) + 1
-        if k != "argv":
-            self._hist["split_outcome"][ia[0]] = self._hist["split_outcome"].get(ia[0], 0) + 1
+        if case["kind"] != "argv":
             return False
-        argv = self.argv(case)
-        b = min(len(argv) // 5 * 5, 40)
-        self._hist["argv_len"][str(b)] = self._hist["argv_len"].get(str(b), 0) + 1
-        self._hist["outcome"][ia[0][0]] = self._hist["outcome"].get(ia[0][0], 0) + 1
-        for cls in {c for c, _ in class_instances(argv)}:
-            self._hist["classes"][cls] = self._hist["classes"].get(cls, 0) + 1
-        s = scan_py(argv)
+        s = scan_py(self.argv(case))
         n_rec = sum(len(x) for x in s)
         return n_rec >= 1 and len(case["items"]) > n_rec
 
@@ -429,9 +451,9 @@ class C11(Check):
         rep = neutralise(argv)
         if class_instances(rep):
             return None
-        rcase = {"kind": "argv", "items": [[t] for t in rep], "dom": True}
+        rcase = {"kind": "argv", "items": [[t] for t in rep], "dom": True, "db": False}
         ria = self.impl(rcase)
-        rsa = [["Ok"] + scan_py(rep), ["Ok", rep], "same"]
+        rsa = [["Ok"] + scan_py(rep), ["Ok", rep], "n/a"]
         if self.impl_view_for_spec(rcase, ria) != rsa:
             return None
         return min(inst, key=lambda x: x[1])[0]
@@ -439,8 +461,8 @@ class C11(Check):
     def shrink(self, case, still_fails):
         if case["kind"] != "argv":
             return case
-        items = common.shrink_list(case["items"], lambda its: still_fails({"kind": "argv", "items": its, "dom": case["dom"]}))
-        return {"kind": "argv", "items": items, "dom": case["dom"]}
+        mk = lambda its: {"kind": "argv", "items": its, "dom": case["dom"], "db": case.get("db", False)}  # noqa
+        return mk(common.shrink_list(case["items"], lambda its: still_fails(mk(its))))
 
     def self_tests(self):
         out = []
